@@ -628,12 +628,121 @@ def rotation_keeps_radii(chk):
             kind="lemma", func=fq, meta={"replay": {"what": "rotation"}})
 
 
+def from_preset(chk):
+    """AtomGrid.from_preset with a given radial grid, for the three shapes of the shipped tables (np.load by contract: arrays <Z>_rad / <Z>_npt of
+    a symbolic number K of sectors):
+      * size presets (sg_0, sg_2, sg_3, g1..g7; sg_1 above Z = 18): the constructor gets sizes = npt[s] repeated rad[s] times, sector after sector
+        (rad = number of shells per sector; ragged list with ghost offsets = prefix sums of rad), the caller's grid, centre, seed and method;
+      * radius presets (the others): degrees = sector map(rgrid.points, rad, converted npt) through the contracts proved in sector_map / C12.
+    The table of the requested preset and element is read (file and keys)."""
+    eng = chk.eng
+    fq = f"{MOD}.AtomGrid.from_preset"
+    K, s0, t0 = z3.Ints("K_sectors s0 t0")
+    RADI = z3.Function("table_rad_count", IS, IS)
+    RADR = z3.Function("table_rad_radius", IS, RS)
+    NPTS = z3.Function("table_npt", IS, IS)
+    OFFP = z3.Function("shells_before_sector", IS, IS)           # ghost: prefix sums of the shell counts
+    DEGC = z3.Function("converted_degree", IS, IS)
+    DSEC = z3.Function("degree_of_shell", IS, IS)
+    calls = {"load": [], "init": [], "conv": [], "find": []}
+    cases = [("sg_2", 8, "sizes"), ("g3", 26, "sizes"), ("sg_1", 26, "sizes"), ("sg_1", 8, "degrees"), ("fine", 8, "degrees")]
+
+    def init_contract(eng_, f, args, kwargs):
+        calls["init"].append((list(args), dict(kwargs)))
+        o = I.Obj(f)
+        o.fields["_marker"] = len(calls["init"])
+        return o
+
+    for preset, zat, kind in cases:
+        rep = {"what": "preset", "preset": preset, "Z": zat}
+
+        def np_load(eng_, path, preset=preset, zat=zat, kind=kind):
+            calls["load"].append(path)
+            rad = I.Arr((K,), (lambda k: RADI(T.zi(k))) if kind == "sizes" else (lambda k: RADR(T.zi(k))), "int" if kind == "sizes" else "real")
+            return {f"{zat}_rad": rad, f"{zat}_npt": I.Arr((K,), lambda k: NPTS(T.zi(k)), "int")}
+
+        def conv_contract(eng_, f, args, kwargs):
+            calls["conv"].append(([a for a in args if not isinstance(a, I.ClassRef)], dict(kwargs)))
+            return I.Arr((K,), lambda k: DEGC(T.zi(k)), "int")
+
+        def find_contract(eng_, f, args, kwargs):
+            calls["find"].append(([a for a in args if not isinstance(a, I.ClassRef)], dict(kwargs)))
+            return I.Arr((S,), lambda i: DSEC(T.zi(i)), "int")
+
+        def thunk(eng_, preset=preset, zat=zat, kind=kind):
+            for v_ in calls.values():
+                v_.clear()
+            eng_.externals["numpy.load"] = np_load
+            cc = eng_.callee_contracts
+            cc[f"{MOD}.AtomGrid"] = init_contract
+            cc["grid.angular.AngularGrid.convert_angular_sizes_to_degrees"] = conv_contract
+            cc[f"{MOD}.AtomGrid._find_degrees_for_radial_points"] = find_contract
+            eng_.generic_segments = [(s0, t0)]
+            eng_.ghost_offsets = [lambda s_: OFFP(T.zi(s_)), lambda s_: OFFP(T.zi(s_))]
+            try:
+                _q = z3.Int("q_any")
+                eng_.assume(z3.And(S >= 1, rot >= 0, K >= 1, s0 >= 0, s0 < K, t0 >= 0, t0 < RADI(s0)))
+                eng_.assume(NONNEG_R)
+                # the ghost offsets are the prefix sums of the per-sector shell counts (non-negative)
+                eng_.assume(z3.And(OFFP(0) == 0, z3.ForAll([_q], z3.Implies(z3.And(_q >= 0, _q < K), z3.And(RADI(_q) >= 0, OFFP(_q + 1) == OFFP(_q) + RADI(_q))))))
+                rg = radial_grid(eng_)
+                cls = eng_.get_class(MOD, "AtomGrid")
+                fr = I.Frame(eng_, cls.module, I.Env(), cls, None, "harness")
+                g = eng_.call(fr.getattr(cls, "from_preset"), [], {"atnum": zat, "preset": preset, "rgrid": rg, "center": centre_arr(), "rotate": rot, "method": "maxdet"})
+                return g, rg, {k_: list(v_) for k_, v_ in calls.items()}
+            finally:
+                eng_.externals.pop("numpy.load", None)
+                for k_ in (f"{MOD}.AtomGrid", "grid.angular.AngularGrid.convert_angular_sizes_to_degrees", f"{MOD}.AtomGrid._find_degrees_for_radial_points"):
+                    cc.pop(k_, None)
+                eng_.generic_segments = []
+                eng_.ghost_offsets = []
+        tag = f"from_preset/{preset}-Z{zat}"
+        outs = chk.explore(tag, thunk, func=fq)
+        rets = [o for o in outs if o.kind == "return"]
+        chk.add(f"{tag}/post/returns-on-every-path", [], z3.BoolVal(bool(rets) and len(rets) == len(outs)), func=fq,
+                meta={"replay": rep, "paths": str([(o.kind, o.exc, o.note) for o in outs])})
+        for oi, o in enumerate(rets):
+            g, rg, c = o.value
+            hy = list(o.pc) + list(o.assumptions)
+            chk.add_from_path(f"{tag}/path{oi}", o, func=fq, meta={"replay": rep})
+            okl = len(c["load"]) == 1 and isinstance(c["load"][0], I.Opaque) and c["load"][0].data.get("name") == f"prune_grid_{preset}.npz" \
+                and c["load"][0].data.get("pkg") == "grid.data.prune_grid"
+            chk.add(f"{tag}/post/reads-the-table-of-this-preset", [], z3.BoolVal(bool(okl)), func=fq, meta={"replay": rep})
+            ci = c["init"]
+            oki = len(ci) == 1 and ci[0][0] and ci[0][0][0] is rg and ci[0][1].get("method") == "maxdet" and T.is_sym(ci[0][1].get("rotate")) and ci[0][1]["rotate"].eq(rot) \
+                and isinstance(ci[0][1].get("center"), I.Arr)
+            chk.add(f"{tag}/post/constructor-gets-grid-centre-seed-method", list(o.pc),
+                    z3.And(z3.BoolVal(bool(oki)), *([T.zr(ci[0][1]["center"].fn(x)) == ctr[x] for x in range(3)] if oki else [])), func=fq, meta={"replay": rep})
+            chk.add(f"{tag}/post/returns-the-constructed-grid", [], z3.BoolVal(isinstance(g, I.Obj) and g.fields.get("_marker") == 1), func=fq, meta={"replay": rep})
+            if not oki:
+                continue
+            kw = ci[0][1]
+            if kind == "sizes":
+                sz = kw.get("sizes")
+                degs_none = (ci[0][0][1] if len(ci[0][0]) > 1 else kw.get("degrees", 0)) is None
+                good = type(sz).__name__ in ("SymList", "LazySeq") and degs_none
+                chk.add(f"{tag}/post/sizes-are-the-tabulated-size-of-each-sector-repeated-for-its-shells", hy,
+                        z3.And(T.zi(sz.length) == OFFP(K), T.zi(sz.item(OFFP(s0) + t0)) == NPTS(s0)) if good else z3.BoolVal(False), func=fq, meta={"replay": rep})
+            else:
+                dg = kw.get("degrees")
+                okc = len(c["conv"]) == 1 and len(c["find"]) == 1 and c["conv"][0][1].get("method", c["conv"][0][0][1] if len(c["conv"][0][0]) > 1 else None) == "maxdet"
+                goals = [z3.BoolVal(bool(okc and isinstance(dg, I.Arr)))]
+                if okc and isinstance(dg, I.Arr):
+                    k1, i1 = z3.Int("k1"), z3.Int("i1")
+                    npt_a = c["conv"][0][0][0]
+                    pts_a, rad_a, deg_a = c["find"][0][0][:3]
+                    goals += [z3.Implies(z3.And(k1 >= 0, k1 < K), z3.And(T.zi(npt_a.fn(k1)) == NPTS(k1), T.zr(rad_a.fn(k1)) == RADR(k1), T.zi(deg_a.fn(k1)) == DEGC(k1))),
+                              z3.Implies(z3.And(i1 >= 0, i1 < S), z3.And(T.zr(pts_a.fn(i1)) == Rr(i1), T.zi(dg.fn(i1)) == DSEC(i1)))]
+                chk.add(f"{tag}/post/degrees-are-the-sector-map-of-the-radial-nodes-over-the-converted-table", hy, z3.And(*goals), func=fq, meta={"replay": rep})
+
+
 def build(chk):
     generate_atomic_grid(chk)
     constructor(chk)
     shell_grid(chk)
     sector_map(chk)
     from_pruned(chk)
+    from_preset(chk)
     rotation_keeps_radii(chk)
 
 
